@@ -29,8 +29,8 @@ def run(ctx):
     n = ctx.pick(1, 5)
     gens = te.run_parallel([
         lambda: te.generate(ctx, sd, "GenCrash", te.gen_consts(["write", "snapshot", "reopen", "crash"], crash=4, comp=0, dele=0), num=10 * n),
-        lambda: te.generate(ctx, sd, "GenCompact", te.gen_consts(["write", "snapshot", "gate", "compact", "crash"], crash=2, dele=0, w=5, snap=4), num=10 * n),
-        lambda: te.generate(ctx, sd, "GenDelete", te.gen_consts(["write", "snapshot", "compact", "delete", "reopen", "crash"], crash=3), num=6 * n),
+        lambda: te.generate(ctx, sd, "GenCompact", te.gen_consts(["write", "snapshot", "gate", "compact", "crash"], crash=2, dele=0, w=5, snap=4, crash_in=("compact", "snapshot", "restart")), num=10 * n),
+        lambda: te.generate(ctx, sd, "GenDelete", te.gen_consts(["write", "snapshot", "compact", "delete", "reopen", "crash"], crash=3, crash_in=("delete", "compact", "idle", "restart")), num=6 * n),
     ])
     behs = te.known_behaviours(ctx) + [b for g in gens for b in g]
     acts, f1, f14 = te.stats(behs)
@@ -40,6 +40,7 @@ def run(ctx):
     done = te.replay_and_judge(ctx, behs, "replay")
     extra = {"replayed_behaviours": done.get("behaviours", 0), "replayed_steps": done.get("steps", 0),
              "crash_images": done.get("crash_images", 0), "crash_images_recovered": done.get("crash_images_recovered", 0),
+             "tainted_model_drift": done.get("tainted_model_drift", 0),
              "torn_tail_second_restart_histories": f1, "step_kinds": acts}
     return ctx.finish("model_checking", extra, assumptions=[
         "crash model: process death at a durable step (verif hooks + FileStoreObserver) plus any truncation of the WAL entry that was being synced; "
